@@ -70,10 +70,9 @@ INCONCLUSIVE = {
 # returned-model defects that are listed: (function, oracle tag) -> finding id
 RETURNED_FINDINGS = {('drop_columns', 18): 'C06-DROP-COLUMNS-UNDEFINED', ('set_dvid', 19): 'C06-SETDVID-CATEGORIES-NOT-SERIALIZABLE'}
 # (CompartmentalSystem was repaired in /repo 698ece8: its table must be consistent now)
-EQHASH_FINDINGS = {'ColumnInfo': 'C06-COLINFO-HASH-DESCRIPTOR', 'Model': 'C06-MODEL-HASH-UNCOMPARED',
-                   'frozenmapping': 'C06-FROZENMAPPING-HASH-ORDER'}
-EQHASH_EXPECTED = {'ColumnInfo': [('descriptor', 0)], 'Model': [('initial_individual_estimates', 0), ('dataset', 1)],
-                   'frozenmapping': [('mapping', 3)]}
+# (ColumnInfo repaired in /repo d301152, frozenmapping in e8b6237: their tables must be consistent now)
+EQHASH_FINDINGS = {'Model': 'C06-MODEL-HASH-UNCOMPARED'}
+EQHASH_EXPECTED = {'Model': [('initial_individual_estimates', 0), ('dataset', 1)]}
 
 
 # ============================================================================================ Coq printers
@@ -429,6 +428,8 @@ def term_bits(cls, tab, a, b, fns):
         if how == 1:
             if (cls, field) in fns:
                 return bool(fns[(cls, field)](va) == fns[(cls, field)](vb))
+            if callable(va) and callable(vb):       # compared through a method: self._m() == other._m()
+                return bool(va() == vb())
             if va is None or vb is None:
                 return va is None and vb is None
             return bool(va.equals(vb))
@@ -820,32 +821,16 @@ def inplace_probe(w):
 
 
 # ============================================================================================ the run
-def classify_tags(ctx, tags, spec, what_prefix='', info=None):
+def classify_tags(ctx, tags, spec, what_prefix=''):
     """generic classification of one Coq case"""
     tags = set(tags)
-    # guard-false input on which the implementation REJECTS (= the specification: NaN bounds / duplicate names are
-    # refused) while the faithful model of the listed defect accepts: the defect was repaired, not an alarm
-    if info is not None and info.get('accepted') is False:
-        if 1 in tags and 201 in tags and spec.get('k') in ('create', 'replace'):
-            tags.discard(1)
-            ctx.coverage['spec_conformant_on_guard_false'] = ctx.coverage.get('spec_conformant_on_guard_false', 0) + 1
-        if 3 in tags and ({203, 204} & tags) and spec.get('k') in ('rvs_add', 'rvs_single'):
-            tags.discard(3)
-            ctx.coverage['spec_conformant_on_guard_false'] = ctx.coverage.get('spec_conformant_on_guard_false', 0) + 1
     status = 'ok'
     oracle = sorted(t for t in tags if t in ORACLE_TAGS)
     corr = sorted(t for t in tags if t in CORR_TAGS)
     for t in oracle:
         fid = None
-        if t == 11 and 201 in tags and not ({1} & tags):
-            fid = 'C06-PARAM-NAN-BOUND'
-        if t == 13 and ({203, 204} & tags) and not ({3} & tags):
-            fid = 'C06-RVS-UNCHECKED-NAMES'
-        if t == 15 and not ({5, 6} & tags):
-            if 206 in tags:
-                fid = spec.get('finding')       # the class itself hashes a term it does not compare
-            elif 208 in tags and spec.get('class') == 'DataInfo':
-                fid = 'C06-COLINFO-HASH-DESCRIPTOR'   # the columns tuple holds ColumnInfo objects
+        if t == 15 and not ({5, 6} & tags) and 206 in tags:
+            fid = spec.get('finding')       # the class itself hashes a term it does not compare
         if fid and ctx.open_finding(fid):
             ctx.coverage.setdefault('known_hits', {}).setdefault(fid, 0)
             ctx.coverage['known_hits'][fid] += 1
@@ -957,7 +942,7 @@ def wf_part(ctx, tabs, B, fns):
     verdicts = ctx.run_cases('wf', IMPORTS, 'case', terms, 'verdict', shard=150)
     stats = {'ok': 0, 'known': 0, 'violation': 0, 'broken': 0}
     for s, tags, inf in zip(kept, verdicts, infos):
-        stats[classify_tags(ctx, tags, s, info=inf)] += 1
+        stats[classify_tags(ctx, tags, s)] += 1
     by_kind = {}
     for s, i, v in zip(kept, infos, verdicts):
         d = by_kind.setdefault(s['k'], {'n': 0, 'accepted': 0, 'guard_false': 0})
@@ -1108,6 +1093,8 @@ def oracle_part(ctx, eff):
 
 
 def run(ctx):
+    # staged entries of known_findings.d replace entries of known_findings.json with the same id
+    ctx.findings = list({f['id']: f for f in ctx.findings}.values())
     ctx.build_gate(['C06'])
     ctx.trusted += [
         'harness/props/c06_effects.py: syntax-directed Python-ast -> effect-IR translator (control flow -> Seq/Alt/Star/Part; '
